@@ -30,12 +30,13 @@ def limits (c : Cfg) : C02Spec.Limits :=
 def chunkStorePut (c : Cfg) (ttl now : Int) : Int := compute_expiry (chunkstore_put_ttl ttl c) now
 
 /-- the four lifetimes (ns) recorded by `Node::store_chunk(ttl)` on a node constructed from `cfg`,
-    at steady time `steady` and wall time `wall` -/
-def storeChunk (cfg : Cfg) (ttl steady wall : Int) : C02Spec.StoreDurations :=
+    at steady time `steady` and wall time `wall`; `prevShard` is the deadline of the key-share record
+    the table already holds for that chunk id (0 = none) -/
+def storeChunk (cfg : Cfg) (ttl steady wall : Int) (prevShard : Int := 0) : C02Spec.StoreDurations :=
   let c := effective cfg
   { chunk := chunkStorePut c (store_chunk_put_ttl ttl c) steady - steady
     manifest := store_chunk_manifest_expires ttl c wall - wall
-    shard := publish_shards_expires (store_chunk_shard_ttl ttl c) steady - steady
+    shard := publish_shards_expires (store_chunk_shard_ttl ttl c) steady prevShard - steady
     announce := add_contact_expires (announce_chunk_contact_ttl (store_chunk_announce_ttl ttl c)) steady - steady }
 
 /-- control-plane STORE with a TTL header whose numeric value is `header`: the TTL handed to
